@@ -33,10 +33,10 @@ var dbMuSecondLevelExempt = map[string]map[string]bool{
 }
 
 var c42Held = map[string]string{
-	"closure stored to complit.InProgressCompactionsFn": "versionUpdate.InProgressCompactionsFn is invoked by UpdateVersionLocked after it re-acquired DB.mu (comment at the call: 'Now that DB.mu is held again')",
+	"closure stored to complit.InProgressCompactionsFn":     "versionUpdate.InProgressCompactionsFn is invoked by UpdateVersionLocked after it re-acquired DB.mu (comment at the call: 'Now that DB.mu is held again')",
 	"closure passed to p.(*versionSet).UpdateVersionLocked": "UpdateVersionLocked runs its update function with DB.mu held",
 	"closure stored in map formatMajorVersionMigrations":    "migrations run under DB.mu (ratchetFormatMajorVersionLocked)",
-	"p.Open":                                    "before the DB is published no other goroutine can reach it; Open takes DB.mu for the recovery phase",
+	"p.Open": "before the DB is published no other goroutine can reach it; Open takes DB.mu for the recovery phase",
 	"closure passed to p.(*commitPipeline).AllocateSeqNum": "callbacks lock DB.mu themselves where needed",
 }
 
